@@ -47,6 +47,8 @@ func init() {
 		},
 		"vTier": func(fr *frame, args []value) value { return Tier },
 		"vBudgetOK": func(fr *frame, args []value) value { fr.i.path.budgetOK = true; return nil },
+		"vHavoc": vHavocIntrinsic,
+		"vSetupOnce": vSetupOnceIntrinsic,
 		"vBudgetHit": nil,
 	}
 	delete(intrinsics, "vBudgetHit")
@@ -204,5 +206,94 @@ func vConcreteStringIntrinsic(fr *frame, args []value) value {
 		return s
 	}
 	unsupported("vConcreteString on symbolic string")
+	return nil
+}
+
+// vHavoc(name, ptr, maxStr): every scalar leaf reachable from *ptr through
+// struct fields and array elements becomes a fresh symbolic value; strings
+// get a case-split length in 0..maxStr and symbolic bytes.  Pointers,
+// slices, maps, interfaces, functions and channels are left untouched.
+func vHavocIntrinsic(fr *frame, args []value) value {
+	name := argName(fr, args[0])
+	p := args[1].(iface)
+	pt, ok := p.t.Underlying().(*types.Pointer)
+	if !ok {
+		unsupported("vHavoc needs a pointer")
+	}
+	maxStr := args[2].(int)
+	addr := p.v.(*value)
+	havoc(fr, pt.Elem(), addr, name, maxStr)
+	return nil
+}
+
+func havoc(fr *frame, T types.Type, addr *value, path string, maxStr int) {
+	ps := fr.i.path
+	switch t := T.Underlying().(type) {
+	case *types.Basic:
+		switch {
+		case t.Info()&types.IsBoolean != 0:
+			if v, ok := ps.concreteVal(path); ok {
+				fr.i.setCell(addr, v != 0)
+			} else {
+				fr.i.setCell(addr, ps.newVar(path, boolSort, "bool"))
+			}
+		case t.Info()&types.IsInteger != 0:
+			ki, _ := kindOf(T)
+			if v, ok := ps.concreteVal(path); ok {
+				fr.i.setCell(addr, lower(mkBV(ki.w, v), T))
+			} else {
+				fr.i.setCell(addr, ps.newVar(path, bvSort(ki.w), t.Name()))
+			}
+		case t.Info()&types.IsString != 0:
+			n := ps.choice(path+".len", maxStr+1)
+			bs := make([]value, n)
+			for k := range bs {
+				nm := fmt.Sprintf("%s[%d]", path, k)
+				if v, ok := ps.concreteVal(nm); ok {
+					bs[k] = uint8(v)
+				} else {
+					bs[k] = ps.newVar(nm, bvSort(8), "uint8")
+				}
+			}
+			fr.i.setCell(addr, mkStr(bs))
+		}
+	case *types.Struct:
+		st := (*addr).(structure)
+		for k := 0; k < t.NumFields(); k++ {
+			havoc(fr, t.Field(k).Type(), &st[k], path+"."+t.Field(k).Name(), maxStr)
+		}
+	case *types.Array:
+		arr := (*addr).(array)
+		for k := range arr {
+			havoc(fr, t.Elem(), &arr[k], fmt.Sprintf("%s[%d]", path, k), maxStr)
+		}
+	}
+}
+
+// vSetupOnce(key, f): run f once per worker, outside the undo journal, so
+// the (deterministic, concrete) state it builds is shared by all later
+// paths of that worker; what paths do to that state is journaled and undone.
+func vSetupOnceIntrinsic(fr *frame, args []value) value {
+	i := fr.i
+	key := argName(fr, args[0])
+	if i.setupDone == nil {
+		i.setupDone = map[string]bool{}
+	}
+	if i.setupDone[key] {
+		return nil
+	}
+	saved := i.journalOn
+	savedPath := i.path
+	savedSteps, savedMax := i.steps, i.maxSteps
+	i.journalOn = false
+	i.path = nil
+	i.maxSteps = 1 << 62
+	defer func() {
+		i.journalOn = saved
+		i.path = savedPath
+		i.steps, i.maxSteps = savedSteps, savedMax
+	}()
+	call(i, fr, 0, args[1], nil)
+	i.setupDone[key] = true
 	return nil
 }
